@@ -194,10 +194,13 @@ extern "C" {
 	((u32*)(block))[3] = u32Rev(((u32*)(block))[3])\
 
 #define beltBlockIncU32(block)\
-	if ((((u32*)(block))[0] += 1) == 0 &&\
-		(((u32*)(block))[1] += 1) == 0 &&\
-		(((u32*)(block))[2] += 1) == 0)\
-		((u32*)(block))[3] += 1\
+	do {\
+		register u32 carry = 1;\
+		((u32*)(block))[0] += carry, carry &= (u32)(((u32*)(block))[0] == 0);\
+		((u32*)(block))[1] += carry, carry &= (u32)(((u32*)(block))[1] == 0);\
+		((u32*)(block))[2] += carry, carry &= (u32)(((u32*)(block))[2] == 0);\
+		((u32*)(block))[3] += carry, carry = 0;\
+	} while (0)\
 
 /*
 *******************************************************************************
